@@ -18,11 +18,11 @@ def jobs(ctx):
         js.append(e1.make_job(ctx, 'step_NE5_op%d_witness' % op, 'C17/dll_step.c', UNITS, 'harness', unwind=6, defines=['NE=5', 'STEPS=1', 'OP=%d' % op],
                               expect='witness', timeout=900))
     # bounded sequences from empty lists
-    steps = [3, 5] if ctx.tier == 'thorough' else [3]
+    steps = [3, 4] if ctx.tier == 'thorough' else [2]
     for st in steps:
         js.append(e1.make_job(ctx, 'fromempty_S%d' % st, 'C17/dll_step.c', UNITS, 'harness', unwind=5, defines=['NE=4', 'STEPS=%d' % st, 'FROM_EMPTY', 'CHECK_EVERY_STEP'],
                               timeout=3000 if st > 3 else 900, optional=(st > 3), desc='%d symbolic operations from two empty lists over 4 elements, checked after every step' % st))
-    js.append(e1.make_job(ctx, 'fromempty_S3_witness', 'C17/dll_step.c', UNITS, 'harness', unwind=5, defines=['NE=4', 'STEPS=3', 'FROM_EMPTY', 'CHECK_EVERY_STEP'],
+    js.append(e1.make_job(ctx, 'fromempty_S2_witness', 'C17/dll_step.c', UNITS, 'harness', unwind=5, defines=['NE=4', 'STEPS=2', 'FROM_EMPTY', 'CHECK_EVERY_STEP'],
                           expect='witness', timeout=900))
     return js
 
@@ -44,7 +44,7 @@ def info(ctx):
         'units': UNITS,
         'functions': ['nsync_dll_init_', 'nsync_dll_is_empty_', 'nsync_dll_remove_', 'nsync_dll_splice_after_', 'nsync_dll_make_first_in_list_',
                       'nsync_dll_make_last_in_list_', 'nsync_dll_first_', 'nsync_dll_last_', 'nsync_dll_next_', 'nsync_dll_prev_'],
-        'bounds': {'elements': 6 if ctx.tier == 'thorough' else 5, 'lists': 2, 'steps_inductive': 1, 'steps_from_empty': [3, 5] if ctx.tier == 'thorough' else [3], 'elements_from_empty': 4,
+        'bounds': {'elements': 6 if ctx.tier == 'thorough' else 5, 'lists': 2, 'steps_inductive': 1, 'steps_from_empty': [3, 4] if ctx.tier == 'thorough' else [2], 'elements_from_empty': 4,
                    'unwind': 'all loops fully unwound with unwinding assertions'},
         'stubs': [],
         'assumptions': ['documented preconditions: remove(list,e) with e in list; make_first/make_last/splice with e (n) not in the target list (p\'s list)',
